@@ -162,6 +162,13 @@ class ParseMCNPCell:
         ast_mcnp = get_ast(geometry)
 
         option = re.sub(' *: *', ':', option)
+        if self.FILL_ARRAY_PAREN_RE.search(option.lower()):
+            # a parenthesis among the entries of a FILL array: per-element
+            # transformations; once the parentheses are dropped they cannot
+            # be told from universe numbers
+            msg = ('transformations of single lattice elements (parentheses '
+                   'inside a FILL array) are not supported')
+            raise ParseMCNPCellError(msg)
         option = (option.lower().replace('(', ' ').replace(')', ' ')
                   .replace('=', ' '))
         kw_list = list(reversed(option.split()))
@@ -266,6 +273,9 @@ class ParseMCNPCell:
         return keywords
 
     SHORTHAND_RE = re.compile(r'^[0-9]*[jr]$')
+    # FILL followed by ranges, then numbers or shorthand, then a parenthesis
+    FILL_ARRAY_PAREN_RE = re.compile(
+        r'fill[\s=]*[-+]?[0-9]+:(?:[-+0-9.:\s]|[0-9]*[rimj](?![a-z]))*\(')
 
     @classmethod
     def pop_transform_numbers(cls, kw_list):
@@ -294,6 +304,10 @@ class ParseMCNPCell:
             str_bounds = [first_arg]
             while kw_list and ':' in kw_list[-1]:
                 str_bounds.append(kw_list.pop())
+            if len(str_bounds) > 3:
+                msg = (f'a lattice has three indices, found {len(str_bounds)} '
+                       'ranges after FILL keyword')
+                raise ParseMCNPCellError(msg)
             bounds = parse_ranges(str_bounds)
             try:
                 fillid_u, consumed = expand_data_card(list(reversed(kw_list)),
